@@ -972,3 +972,45 @@ def varint_guard(ctx):
                         "%s is %s" % (s_.what, "dominated by `mult %s %d` at %s" % guarded if guarded else "NOT preceded by the bound test on the multiplier: a fifth continuation byte overflows u32"),
                         "mult <= 0x%x (so mult is one of 1, 2^7, 2^14, 2^21) before it is used" % mx))
     return out
+
+
+@rule("VARINT-ERR", floor=2)
+def varint_err(ctx):
+    """VarSizeInt::try_from(&[u8]) reports an error other than InsufficientBufferSize only after four bytes with a
+    continuation bit (multiplier beyond the maximum, or a terminating byte at index >= 4). The framer parses the
+    length over the zero-padded read buffer: an error that a zero byte after a valid prefix could trigger would be
+    mistaken for a malformed stream (premature end-of-stream)."""
+    b = ctx.body(r"core::base_types::VarSizeInt as std::convert::TryFrom<&\[u8\]>>::try_from$")
+    mult_locals = {l for l, n in b.names.items() if n == "mult"}
+    idx_locals = {l for l, n in b.names.items() if n == "idx"}
+    out = []
+    for i in sorted(b.reach):
+        variants = set()
+        for st in b.blocks[i]["stmts"]:
+            if st["k"] == "assign":
+                variants |= {a[2] for a in b.rv_atoms(st["rv"]) if a[0] == "variant" and a[1].startswith("core::error::")}
+        variants -= {"InsufficientBufferSize"}
+        if not variants:
+            continue
+        ok = False
+        why = []
+        for (d, s_) in b.control_dep_closure(i):
+            c = Cond(b, d)
+            if c.kind == "cmp":
+                n = c.cmp_norm(lambda x: x.get("k") != "const" and b.base_local(x) in mult_locals)
+                if n and c.holds_on(s_) is not None:
+                    k = b.fold(n[1])
+                    eff = n[0] if c.holds_on(s_) else {"Lt": "Ge", "Ge": "Lt", "Gt": "Le", "Le": "Gt"}.get(n[0], n[0])
+                    if k is not None and eff in ("Gt", "Ge") and k >= 2 ** 21:
+                        ok = True
+                        why.append("mult %s %d" % (eff, k))
+            t = b.term(d)
+            if t["k"] == "switch" and t["op"].get("k") != "const" and (t["op"]["pl"]["l"] in idx_locals or b.base_local(t["op"]) in idx_locals):
+                vals = b.edge_value(d, s_)
+                if vals == ["otherwise"] and {v for v, _ in t["targets"]} >= {0, 1, 2, 3}:
+                    ok = True
+                    why.append("idx >= 4")
+        out.append(Inst("VARINT-ERR", "%s#%d" % (",".join(sorted(variants)), len([o for o in out if o.key.split(":", 1)[1].startswith(",".join(sorted(variants)))])), ok, b.site(i),
+                        "error %s is returned %s" % (sorted(variants), "only after four continuation bytes (%s)" % ", ".join(sorted(set(why))) if ok else "on a condition that a zero byte following a valid prefix can satisfy"),
+                        "no error on `valid prefix + zero padding` (only InsufficientBufferSize or a provisional value)"))
+    return out
